@@ -579,6 +579,8 @@ def instantiate_fm(ex, f, lam, k, out_kind, st):
         vt, _ = lam.at(ex, st[i])
         run.axiom(z3.Length(r) == n)
         run.axiom(P.forall([i], z3.Implies(z3.And(i >= 0, i < n), r[i] == vt), patterns=[r[i]]))
+        # the image of every input element is a member of the output (membership instance, triggered by st[i])
+        run.axiom(P.forall([i], z3.Implies(z3.And(i >= 0, i < n), z3.Contains(r, z3.Unit(vt))), patterns=[st[i]]))
     else:
         # every output element comes from an input element satisfying the guard (Skolem index function)
         src = P.ufn(f'src_{f.name()}', [k.sort(), z3.IntSort()], z3.IntSort())
